@@ -178,6 +178,7 @@ def main():
     ap.add_argument("--what", default="plain")       # plain | fail
     ap.add_argument("--only", default=None)          # substring filter on program names
     ap.add_argument("--mutant", default=None)        # binding canary: in-memory mutant of streamz
+    ap.add_argument("--explicit", default=None)      # JSON file: list of [name, program, ops] to run exactly as given
     a = ap.parse_args()
     rng = random.Random(a.seed)
     loop = asyncio.new_event_loop()
@@ -191,6 +192,19 @@ def main():
     if a.only:
         progs = [p for p in progs if a.only in p[0]]
     traces = []
+    if a.explicit:
+        progs = []
+        with open(a.explicit) as f:
+            for name, prog, ops in json.load(f):
+                md_of_tags = {(): "none"}
+                ops2 = []
+                for k, (ev, e, x, md, fa) in enumerate(ops):
+                    if ev == "emit":
+                        ch = {0: "none", 1: ("one" if md and md[0] % 3 == 0 else "noref"), 2: ("two" if md and md[0] % 3 == 0 else "mixed")}[len(md)]
+                        ops2.append(("emit", e, B.dec(x), ch, tuple(fa)))
+                    else:
+                        ops2.append(("flush", e, tuple(fa)))
+                traces.append(run_trace(name, prog, ops2, a.mode))
     for name, prog in progs:
         plans = plans_for(prog, a.tier, rng) if a.what == "plain" else fail_plans_for(prog, a.tier, rng)
         if name.startswith("chain:") and name.count(">") >= 1 and a.what == "plain":
